@@ -243,6 +243,44 @@ def cmp_facts(st):
     return out
 
 
+def _is_inline_dist(a, LA, LB, LC, PX, PY, CC):
+    """|l.a * c.c.x + l.b * c.c.y + l.c| written out instead of l.dist(&c.c) (parameters: circle 1, line 2)"""
+    if not (isinstance(a, tuple) and a and a[0] == "call" and str(a[1]).endswith("::abs")):
+        return False
+    args = [x for x in a[2] if not (isinstance(x, tuple) and x and x[0] == "mem")]
+    if len(args) != 1:
+        return False
+    from ..absint import strip_mem
+
+    lin = flin(strip_mem(args[0]))
+    if lin[1] != 0 or len(lin[0]) != 3:
+        return False
+
+    def fld(t):
+        """(param, field path) of a load of an input field"""
+        if not (t[0] == "load"):
+            return None
+        pl, path = t[2], []
+        while pl[0] == "field":
+            path.append(pl[2])
+            pl = pl[1]
+        if pl[0] == "deref" and pl[1][0] == "param":
+            return (pl[1][1], tuple(reversed(path)))
+        return None
+
+    want = {frozenset({(2, (LA,)), (1, (CC, PX))}), frozenset({(2, (LB,)), (1, (CC, PY))}), frozenset({(2, (LC,))})}
+    got = set()
+    for atom, coef in lin[0].items():
+        if coef != 1:
+            return False
+        if atom[0] == "fbin" and atom[1] == "Mul":
+            x, y = fld(atom[2]), fld(atom[3])
+            got.add(frozenset({x, y}))
+        else:
+            got.add(frozenset({fld(atom)}))
+    return got == want
+
+
 def is_eps(c, sign=None):
     return abs(abs(c) - EPSV) < 1e-18 and (sign is None or (c > 0) == (sign > 0))
 
@@ -381,7 +419,7 @@ def check(col, prog, tier, profile, fixture=None):
         for (lin, op, truth) in facts:
             atoms = lin[0]
             rr = [a for a in atoms if a[0] == "load" and a[2][0] == "field" and a[2][2] == CR]
-            dd = [a for a in atoms if a[0] == "call" and str(a[1]).endswith("Line::dist")]
+            dd = [a for a in atoms if (a[0] == "call" and str(a[1]).endswith("Line::dist")) or _is_inline_dist(a, LA, LB, LC, PX, PY, CC)]
             if len(rr) == 1 and len(dd) == 1 and len(atoms) == 2 and atoms[dd[0]] * atoms[rr[0]] == -1 and is_eps(lin[1]):
                 s = 1 if atoms[dd[0]] > 0 else -1
                 # normalise to  d - r - k*eps  (op) 0
